@@ -11,6 +11,9 @@ GROUPS = [
 ]
 
 NATIVE = [
+    dict(name="e2e_invariants", source="native/e2e_invariants.c", repo_sources="ALL_EXCEPT:", cflags=["-w", "-fsanitize=address"],
+         args={"quick": ["C14"], "thorough": ["C14"]}, exhaustive=False,
+         bound="end-to-end invariants of this property on ~12 real decodes (bundled en-us / fr-fr models; goforward recordings with JSGF grammar, FSG file and forced-alignment text; one call, 2048-sample blocks with partial results, float32; digital silence; white noise) under AddressSanitizer -- a safety net under the contracts, not a proof"),
     dict(name="json_times", source="native/json_times.c", repo_sources="ALL_EXCEPT:decoder.c", cflags=["-w"],
          args={"quick": ["quick"], "thorough": ["thorough"]}, exhaustive=True,
          bound="real format_seg: every start frame in [0,400) (thorough [0,3000)), durations 1..60, frame rates {50,80,100,120,125,200}, offsets {0,7.5}"),
@@ -25,5 +28,5 @@ HAND_LEMMAS = ["two-pass agreement of decoder_result_json: sizing and writing pa
 NOT_COVERED = ["decoder_result_json with segments (loop over the segment iterator)", "format_seg_align / format_align_iter (alignment levels 1 and 2)", "JSON escaping", "probability field"]
 CLAIM = dict(
     text="format_seg, the function that formats one segment of the JSON line, is proved (loop-free, full domain, snprintf replaced by an assumed contract): the sizing call (NULL buffer) and the writing call return the same length, the writing call stays inside its buffer and ends the item with '}' and NUL. The time fields (offset + frame / frame rate, duration / frame rate) of the real format_seg are checked by native enumeration over 43 200 (quick) frame/rate/offset combinations including rates that do not divide 1000. For an EMPTY result (no segments, no alignment) the whole line is proved: it is exactly as long as the block allocated for it, ends with ]} newline NUL, and no byte is written outside the block. The whole line WITH segments and validity for any spelling are NOT decided.",
-    note="assumed snprintf contract; native enumeration for the floating-point time fields (bounded); decoder_result_json as a whole, alignment levels and JSON escaping not covered",
-    technique="CBMC function contract (goto-instrument --dfcc) for format_seg; native exhaustive enumeration as bounded stand-in for the floating-point time fields")
+    note="assumed snprintf contract; native enumeration for the floating-point time fields (bounded); decoder_result_json as a whole, alignment levels and JSON escaping not covered; end-to-end invariants on ~12 real decodes by a bounded native run (native/e2e_invariants.c), never counted as proved",
+    technique="CBMC function contract (goto-instrument --dfcc) for format_seg; native exhaustive enumeration as bounded stand-in for the floating-point time fields; plus a bounded native run of the property's end-to-end invariants on real decodes (safety net, not proof)")
